@@ -53,7 +53,7 @@ Qed.
 Lemma set_XV_multi_spec orc c isT V m m' : set_XV_multi orc c isT V m = VOk m' ->
   if isT then sT (ms m') = sT (ms m) else sP (ms m') = sP (ms m).
 Proof.
-  unfold set_XV_multi, call_dew, call_bubble, solve_v. destruct isT; cbv zeta; red1.
+  unfold set_XV_multi, call_dew, call_bubble, call_dew_n, call_bubble_n, solve_v. destruct isT; cbv zeta; red1.
   all: destruct (o_bubble orc (mk m) _) as [Xb yb].
   all: repeat brk; red1.
   all: try (destruct (o_dew orc _ _) as [Xd xd]; red1).
@@ -73,7 +73,7 @@ Lemma set_TP_spec T P m m' : catch_noeq (set_TP cf orc T P m) (fun s => with_P (
   sT (ms m') = T /\ sP (ms m') = P.
 Proof.
   unfold set_TP. destruct (setup cf (ms m)) as [s c|s|e s]; red1.
-  - unfold call_dew, call_bubble, solve_v. repeat brk; red1.
+  - unfold call_dew, call_bubble, call_dew_n, call_bubble_n, solve_v. repeat brk; red1.
     all: try (intros E; inversion E; subst; red1; auto; fail).
     + intros E; inversion E; subst; red1. destruct (tp_chemical_TP orc c (with_P (with_T s T) P) T P) as (A & B).
       rewrite A, B. red1. auto.
@@ -114,7 +114,7 @@ Qed.
 Lemma set_TH_spec T H m m' : set_TH cf orc T H m = VOk m' -> sT (ms m') = T.
 Proof.
   unfold set_TH. destruct (setup cf (ms m)) as [s c|s|e s]; red1; try (intros E; inversion E; fail).
-  unfold call_dew, call_bubble, call_xH.
+  unfold call_dew, call_bubble, call_dew_n, call_bubble_n, call_xH.
   repeat brk; red1; try (intros E; inversion E; fail).
   all: try (apply th_chemical_T; fail).
   all: destruct (o_dew orc (mk m) _) as [Pd xd]; red1; repeat brk; red1; try (intros E; inversion E; fail).
@@ -126,7 +126,7 @@ Ltac red0 := cbn [ms mset tick mk fst snd om].
 Lemma set_PH_spec ent P H m m' : set_PH cf orc ent P H m = VOk m' -> sP (ms m') = P.
 Proof.
   unfold set_PH. destruct (setup cf (ms m)) as [s c|s|e s]; red0; try (intros E; inversion E; fail).
-  unfold call_dew, call_bubble, call_xH, call_solveT.
+  unfold call_dew, call_bubble, call_dew_n, call_bubble_n, call_xH, call_solveT.
   repeat brk; red0; try (intros E; inversion E; subst; red0; try rewrite ph_chemical_P; reflexivity).
   all: destruct (o_bubble orc (mk m) _) as [Tb yb]; red0; repeat brk; red0;
        try (intros E; inversion E; subst; red0; reflexivity).
@@ -152,7 +152,7 @@ Lemma set_xy_spec bubble specT sv comp m m' : set_xy cf orc bubble specT sv comp
 Proof.
   unfold set_xy. destruct (setup cf (ms m)) as [s c|s|e s]; try (intros E; inversion E; fail).
   destruct (negb (cN c =? 2)); [intros E; inversion E|].
-  unfold call_bubble, call_dew. destruct bubble; red1.
+  unfold call_bubble, call_dew, call_bubble_n, call_dew_n. destruct bubble; red1.
   - destruct (o_bubble orc (mk m) _) as [a y]; red1. intros E. apply lever_TP in E. cbn [ms mset tick mk fst snd om sT sP with_T with_P catch_noeq] in E.
     destruct E as (A & B). destruct specT; cbn [ms mset tick mk fst snd om sT sP with_T with_P catch_noeq] in A; cbn [ms mset tick mk fst snd om sT sP with_T with_P catch_noeq] in B; auto.
   - destruct (o_dew orc (mk m) _) as [a y]; red1. intros E. apply lever_TP in E. cbn [ms mset tick mk fst snd om sT sP with_T with_P catch_noeq] in E.
@@ -302,7 +302,7 @@ Proof.
   assert (N0 : Nat.eqb (cN c) 0 = false) by (apply Nat.eqb_neq; lia).
   assert (N1 : Nat.eqb (cN c) 1 = false) by (apply Nat.eqb_neq; lia).
   unfold vle, vle_call, set_TP. cbn [ms mk]. rewrite E. cbn [ms mset mk]. rewrite N0, N1.
-  unfold call_dew, call_bubble, solve_v. cbn [ms mset mk tick fst snd].
+  unfold call_dew, call_bubble, call_dew_n, call_bubble_n, solve_v. cbn [ms mset mk tick fst snd].
   subst Pd Pb. destruct (o_dew orc 0 T) as [Pd xd]. destruct (o_bubble orc 1 T) as [Pb yb]. cbn [fst snd ms mset mk tick].
   fold s0.
   destruct (qleb P Pd && negb (nzb (Fheavy c))) eqn:C1.
@@ -369,7 +369,7 @@ Proof.
   assert (E1 : qeqb V 1 = false) by (destruct (qeqb V 1) eqn:E; auto; apply qeqb_true in E; contradiction).
   assert (E0 : qeqb V 0 = false) by (destruct (qeqb V 0) eqn:E; auto; apply qeqb_true in E; contradiction).
   cbv zeta. rewrite E1, E0. cbn [andb].
-  unfold call_bubble, call_dew. cbn [ms mset mk tick fst snd].
+  unfold call_bubble, call_dew, call_bubble_n, call_dew_n. cbn [ms mset mk tick fst snd].
   unfold Vb, Vd, xv_last, xv_Xb, xv_Xd in *.
   destruct (o_bubble orc (mk m) a) as [Xb yb]. destruct (o_dew orc (S (mk m)) a) as [Xd xd]. cbn [fst snd] in *.
   destruct (refresh_K_raises c V _ _); [intros E; inversion E|].
@@ -532,7 +532,7 @@ Proof.
   assert (N0 : Nat.eqb (cN c) 0 = false) by (apply Nat.eqb_neq; lia).
   assert (N1 : Nat.eqb (cN c) 1 = false) by (apply Nat.eqb_neq; lia).
   unfold set_PH. rewrite E. red0. rewrite N0, N1.
-  unfold call_dew, call_bubble, call_xH, call_solveT. red0.
+  unfold call_dew, call_bubble, call_dew_n, call_bubble_n, call_xH, call_solveT. red0.
   destruct (o_bubble orc (mk m) _) as [Tb yb]; red0.
   repeat brk; red0; try (intros Q; inversion Q; subst; red0; left; eexists; eexists; eexists; reflexivity).
   all: destruct (o_dew orc _ _) as [Td xd]; red0.
